@@ -51,4 +51,13 @@ CHECKS["C10"] = {
     "note": "Read from the source, not proved: that the compiler requests windows only through reserve_registers_for and brackets every statement with save/restore. Known finding: the constant-pool limit is per chunk (cumulative over statements).",
     "design_ref": "DESIGN.md §4 C10",
 }
+CHECKS["C20"] = {
+    "technique": "Lean 4 proof over M-Pos (line/column formula, layout equivariance, source-map invariant and span_of_instr for all emit sequences) + correspondence with the real Lexer and get_source_location + planted-fault programs",
+    "text": "pos_formula (line = 1 + #LT, column = 1 + characters since the last LT, for every prefix), layout_line/layout_col_* (inserting comments/blank lines/CRLF/tabs/wide characters moves a position exactly as the layout says), "
+            "mapOk_step (source-map offsets stay strictly increasing), lookup_floor and span_of_instr (for every sequence of set_span/clear_span/emit the location looked up for an instruction is the one current when it was emitted) are Lean theorems. "
+            "Token positions of the real lexer and every source-map lookup of real chunks are compared with the model; programs with planted runtime faults behind call chains of depth 0..12 and planted stray tokens, under random layouts, "
+            "must report positions inside the planted expression/token and exactly the generated call chain.",
+    "note": "Not modelled: which span the compiler chooses at each set_span call site (covered only by the planted-fault programs). Known finding: untokenisable characters are reported at the next token.",
+    "design_ref": "DESIGN.md §4 C20",
+}
 NOT_YET = {}
